@@ -280,7 +280,12 @@ func c17(c *ev.Ctx) {
 	argVals := append(c01Values(), model.Str("  Pad  "), model.Str("MiXeD"), model.Str("12"), model.Str("-7"), model.Str("3.50"), model.Str(" 4"), model.Str("1e3"), model.Str("ÀÉ"), model.Float(3), model.Float(-0.25), model.Int(-42),
 		// numbers in every notation a careless conversion might accept or misread
 		model.Str("010"), model.Str("-017"), model.Str("08"), model.Str("0099"), model.Str("007"), model.Str("0x1F"), model.Str("0b101"), model.Str("0o17"), model.Str("1_000"), model.Str("+5"), model.Str("12 "), model.Str("0.5"), model.Str(".5"), model.Str("5."),
-		model.Str("Inf"), model.Str("-inf"), model.Str("NaN"), model.Str("0x1p-2"), model.Str("1e400"), model.Str("9223372036854775807"), model.Str("9223372036854775808"), model.Str("-9223372036854775808"), model.Str("١٢"), model.Str("１２"))
+		model.Str("Inf"), model.Str("-inf"), model.Str("NaN"), model.Str("0x1p-2"), model.Str("1e400"), model.Str("9223372036854775807"), model.Str("9223372036854775808"), model.Str("-9223372036854775808"), model.Str("١٢"), model.Str("１２"),
+		// text that a formatting function would take for directives, on its own and inside containers
+		model.Str("100%"), model.Str("%d %s %v %!"), model.Str("%%"), model.Str("%!d(MISSING)"), model.Str("{}"), model.Arr(model.Str("5%"), model.Int(1)), model.Arr(model.Str("%s"), model.Str("%%")),
+		model.Hash(model.HashEnt{Key: model.Str("name"), Val: model.Str("x")}, model.HashEnt{Key: model.Str("rate"), Val: model.Str("5%")}),
+		model.Hash(model.HashEnt{Key: model.Str("%d"), Val: model.Int(1)}, model.HashEnt{Key: model.Str("%%"), Val: model.Str("%v")}),
+		model.Arr(model.Hash(model.HashEnt{Key: model.Str("k"), Val: model.Str("50% off")})), model.Hash(model.HashEnt{Key: model.Str("in"), Val: model.Arr(model.Str("%q"), model.Float(2.5))}))
 	fns1 := []string{"len", "lower", "upper", "trim", "string", "int", "float", "type", "keys"}
 	var jobs []gast.Expr
 	for _, fn := range fns1 {
